@@ -251,6 +251,7 @@ def oracle(chk, lines, outs, env, mode):
     bad = []
     bases = {0: []}
     kind = {0: "I"}
+    tainted = False
     for i, (line, out) in enumerate(zip(lines, outs)):
         cmd, _, rest = line.partition(":")
         f = cmd.split()
@@ -258,6 +259,9 @@ def oracle(chk, lines, outs, env, mode):
         if f[0] == "reset":
             bases = {0: []}
             kind = {0: "I"}
+            tainted = False
+        elif tainted:
+            continue            # an exception out of a re-basing left the hierarchy half-updated: nothing more to judge in this script
         elif f[0] == "newtwin":
             if out == "ok":
                 bases[int(f[1])] = []
@@ -279,6 +283,14 @@ def oracle(chk, lines, outs, env, mode):
         elif f[0] == "set":
             if out == "ok":
                 bases[int(f[1])] = list(a)
+            elif env == "strict" and out.startswith("err Inconsistent") and int(f[1]) in bases:
+                b2 = dict(bases)
+                b2[int(f[1])] = list(a)
+                down = [j for j in b2 if int(f[1]) in reach(b2, j)]
+                tainted = True
+                if all(rooted(b2, j) and nodup(b2, j) and cpython_mirror_mro(b2, j) is not None for j in down):
+                    bad.append((i, "strict mode raised InconsistentResolutionOrderError on re-basing %s although every specification of the resulting hierarchy "
+                                   "has a C3 linearization (a dependent was recomputed against the not-yet-updated order of another dependent; the hierarchy is left half-updated)" % f[1]))
         elif f[0] == "q":
             c = int(f[1])
             if c not in bases:
@@ -331,7 +343,12 @@ def oracle(chk, lines, outs, env, mode):
 def signature(msg):
     if "is_consistent is True although no C3" in msg:
         return "is_consistent-skips-leaf-merge"
+    if "strict mode raised InconsistentResolutionOrderError on re-basing" in msg:
+        return "strict-rebase-transient-inconsistency"
     return None
+
+
+KNOWN_SIGS = ("strict-rebase-transient-inconsistency",)
 
 
 ENVS = {
@@ -358,6 +375,10 @@ def run_batch(chk, scripts, env, modes=("c", "py")):
         for idx, msg in oracle(chk, lines, impl[m], env, m):
             s, e = runner.script_of(lines, idx)
             fails.append(dict(mode=m, env=env, script=lines[s:e], message=msg, observed=impl[m][idx]))
+            if signature(msg) in KNOWN_SIGS:
+                # the model does not raise there: the rest of that script is not comparable
+                end = next((k for k in range(idx + 1, len(lines)) if lines[k].startswith("reset")), len(lines))
+                divs = [d for d in divs if not (d["mode"] == m and s <= d["index"] < end)]
     return lines, divs, fails
 
 
@@ -418,11 +439,11 @@ def check(tier):
         seen_sig.add(keyf)
         if len(seen_sig) > 3:
             break
-        script = runner.ddmin(f["script"], lambda s: still_fails(s, f["env"], f["mode"], msg_kind(f["message"])), budget=25)
+        script = f["script"] if sig in KNOWN_SIGS else runner.ddmin(f["script"], lambda s: still_fails(s, f["env"], f["mode"], msg_kind(f["message"])), budget=25)
         chk.violation("%s [env=%s mode=%s]" % (f["message"], f["env"], f["mode"]),
                       dict(kind="input", mode=f["mode"], env=f["env"], script=script, observed=f["observed"],
                            expected_by="spec", minimised=True), sig=sig)
-    if not all_fails:
+    if not [f for f in all_fails if signature(f["message"]) not in KNOWN_SIGS]:
         runner.report_divergences(chk, all_divs, "graph-layer correspondence (ZI.Graph2 / ZI.RO vs ro.py, interface.py); theorems " + ", ".join(THEOREMS[:5]),
                                   "oracle accepted all %d nodes checked" % chk.counters.get("nodes_checked", 0))
         core.lean_failure_violation(chk)
